@@ -97,6 +97,11 @@ func Project(x, a, b Point) Point {
 	aXb := a.PointCross(b)
 	// Find the closest point to X along the great circle through AB.
 	p := x.Sub(aXb.Mul(x.Dot(aXb.Vector) / aXb.Norm2()))
+	// The subtraction leaves an absolute error of about dblEpsilon along aXb.
+	// When X is nearly perpendicular to the plane of AB, p is tiny and that
+	// error would tilt it out of the plane by dblEpsilon/|p| (millimetres to
+	// kilometres on the Earth). Projecting once more removes it.
+	p = p.Sub(aXb.Mul(p.Dot(aXb.Vector) / aXb.Norm2()))
 
 	// If this point is on the edge AB, then it's the closest point.
 	if Sign(aXb, a, Point{p}) && Sign(Point{p}, b, aXb) {
